@@ -33,9 +33,13 @@ PROPS["C06"] = {
 }
 
 
+MC_TYPE = lambda tier: {"module": "MC_Type", "constants": {"MaxList": q(tier, 2, 3)},
+                        "invariants": ["QuantStricter", "CastStricter", "NullNeutral", "Emit"],
+                        "forms": ["loads", "rejected"], "workers": 4}
+
 PROPS["C02"] = {
     "title": "Verdicts follow the documented rule language",
-    "models": lambda tier: [],
+    "models": lambda tier: [MC_TYPE(tier)],
     "gens": lambda tier: [{"topic": "lang", "n": q(tier, 1500, 30000)}, {"topic": "str", "n": q(tier, 300, 6000)},
                           {"topic": "quant", "n": q(tier, 200, 4000)}, {"topic": "num", "n": q(tier, 150, 3000)},
                           {"topic": "path", "n": q(tier, 150, 3000)}, {"topic": "typ", "n": q(tier, 400, 8000)}],
